@@ -246,4 +246,7 @@ CLAUSES = [
     Clause("pipeline", phase_cases, run_pipeline, quick=600, thorough=5000,
            rule="cumulative phases 1..k exactly as notebook_chomsky.cfg_apply_chomsky: language kept, cumulative postconditions, argument unchanged"),
 ]
+from props import workbench as WB   # noqa: E402
+
+CLAUSES.append(Clause("object_history", WB.cfg_programs, WB.run_cfg, quick=300, thorough=3000, rule="(conversion phases applied to grammar objects with a history) " + WB.CFG_RULE))
 KNOWN_PREDICATES = {}
